@@ -28,6 +28,7 @@ enum OpCode : uint8_t {
 	OP_COPY,         // copy-construct inst into slot 2 (scenario FORK: fork-and-compare)
 	OP_RECONSTRUCT,  // destroy + re-construct inst, a = new fill byte
 	OP_LOGGER,       // a&1: attach / detach
+	OP_SETCONTEXT,   // pointer contexts only: setContext(&ctxObj[a % 3])
 	OP_COUNT,
 	OP_OBSERVE = 100 // pseudo-op: pure observation bracket emitted by the runner (never decoded from a case)
 };
@@ -122,7 +123,7 @@ inline bool writeFile(const char* path, const std::vector<uint8_t>& d) {
 
 inline const char* opName(uint8_t code) {
 	static const char* n[] = {"update", "react", "query", "change", "immediate", "plan.append", "plan.clear", "plan.remove",
-		"succeed", "fail", "enter", "exit", "save", "load", "replay", "copy", "reconstruct", "logger"};
+		"succeed", "fail", "enter", "exit", "save", "load", "replay", "copy", "reconstruct", "logger", "setContext"};
 	if (code == OP_OBSERVE) return "observe";
 	return n[code % OP_COUNT];
 }
